@@ -11,6 +11,7 @@ import (
 	"encoding/hex"
 	"fmt"
 	"math/rand"
+	"sort"
 	"strings"
 	"testing"
 	"time"
@@ -41,8 +42,15 @@ type Item struct {
 	NewTxs     bool   `json:"new_txs,omitempty"` // data: transactions invented by the third party (derived from Salt)
 	Linked     bool   `json:"linked,omitempty"`  // p2p data: LastDataHash = hash of the current data-store head
 	Salt       int64  `json:"salt,omitempty"`
-	Blobs      []Item `json:"blobs,omitempty"` // via=dah: the blobs of the DA height in id order (each a via=da item)
-	Rep        int    `json:"rep,omitempty"`   // inside Blobs: the blob is published Rep times in a row (0 = once)
+	// Resplit > 0 (data): the transaction list is a NEAR MISS of the proposer's list of block H (variantTxs: the same
+	// bytes cut at other boundaries, a boundary moved by one byte, empty transactions, merged, reordered, rotated,
+	// truncated, duplicated, a flipped bit, protobuf framing inside a transaction, an exact copy = kindCopy).
+	// via=val: the pair (genuine signed header H, that data) handed to types.Validate / execValidate.
+	// via=cmt: two byte-level lists (variant Resplit and variant Resplit2 of one base, 0 = the base) and their DACommitments.
+	Resplit  int    `json:"resplit,omitempty"`
+	Resplit2 int    `json:"resplit2,omitempty"`
+	Blobs    []Item `json:"blobs,omitempty"` // via=dah: the blobs of the DA height in id order (each a via=da item)
+	Rep      int    `json:"rep,omitempty"`   // inside Blobs: the blob is published Rep times in a row (0 = once)
 }
 
 func (it Item) rep() int {
@@ -77,6 +85,9 @@ func (it Item) String() string {
 	if it.Adv {
 		s = "ADV:" + s + fmt.Sprintf("[%s sign=%d key=%d addr=%d prop=%d nometa=%v new=%v link=%v]", it.Mut, it.Sign, it.SignerKey, it.SignerAddr, it.PropAddr, it.NoMeta, it.NewTxs, it.Linked)
 	}
+	if it.Resplit > 0 || it.Resplit2 > 0 {
+		s += fmt.Sprintf("{txs:%s/%s}", variantName(it.Resplit), variantName(it.Resplit2))
+	}
 	return s
 }
 
@@ -95,8 +106,10 @@ type world struct {
 	txIdx   map[string]uint64
 	rootIdx map[string]uint64
 	commit  map[string]string
-	sigs    map[string]string
-	dsigs   map[string]string
+	// two different transaction lists the harness built that the real DACommitment does not tell apart
+	collisions []string
+	sigs       map[string]string
+	dsigs      map[string]string
 }
 
 var emptyDataHash = block.VerifDataHashForEmptyTxs()
@@ -199,9 +212,20 @@ func (w *world) txs(txs types.Txs) string {
 	}
 	return "[" + strings.Join(p, ";") + "]"
 }
+
+// regCommit labels the real commitment of a transaction list with the list.  The first list registered under a hash
+// keeps the label (the proposer's lists are registered first, newWorld): a later, different list with the same
+// real commitment is a collision — recorded, never silently relabelled.
 func (w *world) regCommit(txs types.Txs) {
 	d := types.Data{Txs: txs}
-	w.commit[string(d.DACommitment())] = w.txs(txs)
+	key, term := string(d.DACommitment()), w.txs(txs)
+	if old, ok := w.commit[key]; ok {
+		if old != term {
+			w.collisions = append(w.collisions, old+" vs "+term)
+		}
+		return
+	}
+	w.commit[key] = term
 }
 func (w *world) commitment(h []byte) string {
 	if bytes.Equal(h, emptyDataHash) {
@@ -437,6 +461,9 @@ func (w *world) build(it Item, dataHead *types.Data) *built {
 			if it.NewTxs {
 				d.Txs = w.newTxs(it.H, it.Salt)
 			}
+			if it.Resplit > 0 {
+				d.Txs = variantTxs(d.Txs, it.Resplit, it.Salt)
+			}
 			if it.NoMeta {
 				d.Metadata = nil
 			}
@@ -526,6 +553,169 @@ func (w *world) build(it Item, dataHead *types.Data) *built {
 	}
 	w.t.Fatalf("unknown item kind %q", it.Kind)
 	return nil
+}
+
+// ---- near misses of a transaction list ----------------------------------------------------------------
+
+const (
+	kindRecut    = 1  // the same byte stream cut at other (random) boundaries, empty pieces allowed
+	kindShift    = 2  // one boundary moved by one byte (a single transaction: split in two)
+	kindEmpty    = 3  // an empty transaction added in front / in the middle / behind
+	kindMerge    = 4  // everything in one transaction
+	kindSwap     = 5  // the order of the transactions changed (a single one: its first two bytes)
+	kindRotate   = 6  // the byte stream rotated by one byte under the same lengths (prefix moved to the end)
+	kindDrop     = 7  // the last transaction (a single one: its last byte) dropped
+	kindDup      = 8  // the first transaction twice
+	kindFlip     = 9  // one bit flipped
+	kindCopy     = 10 // an exact copy in fresh slices: the one variant that IS the list
+	kindFrame    = 11 // one transaction holding protobuf framing (tag, length) between the proposer's bytes
+	nVariantKind = 11
+)
+
+func variantName(k int) string {
+	return [...]string{"base", "recut", "shift", "empty", "merge", "swap", "rotate", "drop", "dup", "flip", "copy", "frame"}[k%(nVariantKind+1)]
+}
+
+func cloneTxs(t types.Txs) types.Txs {
+	out := make(types.Txs, len(t))
+	for i := range t {
+		out[i] = append(types.Tx{}, t[i]...)
+	}
+	return out
+}
+
+func sameTxs(a, b types.Txs) bool {
+	if len(a) != len(b) {
+		return false
+	}
+	for i := range a {
+		if !bytes.Equal(a[i], b[i]) {
+			return false
+		}
+	}
+	return true
+}
+
+func cutAt(stream []byte, cuts []int) types.Txs {
+	var out types.Txs
+	prev := 0
+	for _, c := range cuts {
+		out = append(out, append(types.Tx{}, stream[prev:c]...))
+		prev = c
+	}
+	return append(out, append(types.Tx{}, stream[prev:]...))
+}
+
+// variantTxs derives a near miss of base (kind = one of the constants above; only kindCopy returns the same list).
+func variantTxs(base types.Txs, kind int, salt int64) types.Txs {
+	r := rand.New(rand.NewSource(salt*104729 + int64(kind)*31 + int64(len(base))))
+	kind = (kind-1)%nVariantKind + 1
+	if kind == kindCopy {
+		return cloneTxs(base)
+	}
+	var stream []byte
+	for _, t := range base {
+		stream = append(stream, t...)
+	}
+	out := cloneTxs(base)
+	if len(stream) == 0 { // an empty block (or only empty transactions): the lists whose concatenation is empty too
+		switch kind % 3 {
+		case 0:
+			out = types.Txs{types.Tx{}}
+		case 1:
+			out = types.Txs{types.Tx{}, types.Tx{}}
+		default:
+			out = types.Txs{types.Tx{0x12, 0x00}}
+		}
+		if sameTxs(out, base) {
+			out = append(out, types.Tx{})
+		}
+		return out
+	}
+	switch kind {
+	case kindRecut:
+		k := r.Intn(len(base) + 2) // number of cuts
+		cuts := make([]int, k)
+		for i := range cuts {
+			cuts[i] = r.Intn(len(stream) + 1)
+		}
+		sort.Ints(cuts)
+		out = cutAt(stream, cuts)
+	case kindShift:
+		if len(base) == 1 {
+			c := 1
+			if r.Intn(2) == 0 {
+				c = len(stream) - 1
+			}
+			out = cutAt(stream, []int{c})
+		} else {
+			i := r.Intn(len(base) - 1) // the boundary between i and i+1
+			var cuts []int
+			pos := 0
+			for j, t := range base[:len(base)-1] {
+				pos += len(t)
+				c := pos
+				if j == i {
+					if c < len(stream) && (r.Intn(2) == 0 || c == 0) {
+						c++
+					} else if c > 0 {
+						c--
+					}
+				}
+				cuts = append(cuts, c)
+			}
+			sort.Ints(cuts)
+			out = cutAt(stream, cuts)
+		}
+	case kindEmpty:
+		i := r.Intn(len(base) + 1)
+		out = append(append(cloneTxs(base[:i]), types.Tx{}), cloneTxs(base[i:])...)
+	case kindMerge:
+		out = types.Txs{append(types.Tx{}, stream...)}
+	case kindSwap:
+		if len(base) > 1 {
+			out[0], out[len(out)-1] = out[len(out)-1], out[0]
+		} else if len(out[0]) > 1 {
+			out[0][0], out[0][1] = out[0][1], out[0][0]
+		}
+	case kindRotate:
+		rot := append(append([]byte{}, stream[1:]...), stream[0])
+		var cuts []int
+		pos := 0
+		for _, t := range base[:len(base)-1] {
+			pos += len(t)
+			cuts = append(cuts, pos)
+		}
+		out = cutAt(rot, cuts)
+	case kindDrop:
+		if len(base) > 1 {
+			out = out[:len(out)-1]
+		} else {
+			out[0] = out[0][:len(out[0])-1]
+		}
+	case kindDup:
+		out = append(types.Txs{append(types.Tx{}, base[0]...)}, out...)
+	case kindFlip:
+		i := r.Intn(len(out))
+		for len(out[i]) == 0 {
+			i = (i + 1) % len(out)
+		}
+		out[i][r.Intn(len(out[i]))] ^= 1 << uint(r.Intn(8))
+	case kindFrame:
+		// the proposer's transactions in ONE transaction, with the tag and length bytes the encoding would put between them
+		var one types.Tx
+		for j, t := range base {
+			if j > 0 || len(base) == 1 {
+				one = append(one, 0x12, byte(len(t)))
+			}
+			one = append(one, t...)
+		}
+		out = types.Txs{one}
+	}
+	if sameTxs(out, base) { // the variant happened to be the list itself (e.g. a re-cut at the old boundaries)
+		out = append(cloneTxs(base), types.Tx{})
+	}
+	return out
 }
 
 // blobTerm: the model's description of a DA blob
